@@ -22,6 +22,8 @@ rule("C07.e", "reset_index(drop=True) is applied to a mapping only where the fra
 rule("C17.b", "make_slp uses one future selector for l, u, c, sample costs, columns of A, the zeroed present copy and the mapping", floor=6)
 rule("C17.h", "make_slp: a variable is a present (first-stage) variable only if *all* its mapping rows lie in the present - the "
               "classification looks at every row of a variable, not at one representative row", floor=1)
+rule("C17.j", "robust target: the scenario set is the set of samples - every constraint that bounds the auxiliary minimum variable is "
+              "built from the loop variable over the samples; the problem's own cost vector is not an extra scenario", floor=1)
 rule("C17.c", "original future costs and every sample are divided by the same (nS + 1)", floor=2)
 rule("C17.d", "b and cType are repeated nS + 1 times and A is the original plus nS stacked blocks", floor=3)
 rule("C17.f", "robust target: sample constraints, recomputed value and plain objective use the same sign of c", floor=3, props=["C17", "C03"])
@@ -50,7 +52,7 @@ def _fresh_frames(fn):
     return out
 
 
-@analysis("slp", ["C07.e", "C17.b", "C17.c", "C17.d", "C17.f", "C17.h"])
+@analysis("slp", ["C07.e", "C17.b", "C17.c", "C17.d", "C17.f", "C17.h", "C17.j"])
 def run(ctx):
     p = ctx.p
     # ================================================================= C07.e
@@ -248,3 +250,33 @@ def run(ctx):
                    node=st, key="present / future classification on one row per variable")
         if not found:
             ctx.ob("C17.h", ms, "present / future classification", None, "the test time_step.isin(future steps) was not found")
+
+    # ================================================================= C17.j scenario set of the robust target
+    opt_fn = p.fn_opt("OptimProblem.optimize")
+    if opt_fn is None:
+        ctx.ob("C17.j", "OptimProblem", "robust target", None, "OptimProblem.optimize not found")
+    else:
+        # the auxiliary variable: a local created by <cvx>.Variable(1) that the objective of the robust branch is set to
+        aux = set()
+        for st in au.walk_stmts(opt_fn.body):
+            if isinstance(st, ast.Assign) and isinstance(st.targets[0], ast.Name) and isinstance(st.value, ast.Call) and au.method_name(st.value) == "Variable" \
+                    and st.value.args and au.const_num(st.value.args[0]) == 1:
+                aux.add(st.targets[0].id)
+        cons = []
+        for st in au.walk_stmts(opt_fn.body):
+            for x in au.walk_own(st):
+                if isinstance(x, ast.Compare) and len(x.ops) == 1 and isinstance(x.ops[0], (ast.GtE, ast.LtE)) and \
+                        any(isinstance(y, ast.Name) and y.id in aux for y in au.walk_local(x)) and any(isinstance(y, ast.BinOp) and isinstance(y.op, ast.MatMult) for y in au.walk_local(x)):
+                    cons.append((x, st))
+        if not cons:
+            ctx.ob("C17.j", opt_fn, "constraints on the auxiliary minimum", None, "no constraint `-c.T @ x >= <aux>` found")
+        for x, st in cons:
+            loops = [a for a in p.ancestors(x) if isinstance(a, ast.For) and "samples" in au.U(a.iter)]
+            lv = set(au.target_names(loops[0].target)) if loops else set()
+            from_sample = bool(lv & au.names_in(x))
+            own = any(au.path(y) == "self.c" for y in au.walk_local(x))
+            ctx.ob("C17.j", opt_fn, au.short(x, 70), from_sample and not own,
+                   "this constraint bounds the minimum with %s instead of a sample: the robust problem then hedges against a scenario that is not in "
+                   "the scenario set. When that vector is the binding worst case the worst-case value over the *given* scenarios falls below "
+                   "that of a single-scenario solution (144.67 vs 8074.28)" % ("the problem's own cost vector self.c" if own else "a vector that is not the loop variable over the samples"),
+                   node=x)
